@@ -249,6 +249,11 @@ impl<'a, F: Function> RenderWorker<'a, F> for Worker<'a, F> {
         // Prepare local tile data to fill out
         let root_tile_size = self.tile_sizes[0];
         self.out = Image::new(RenderSize::from(root_tile_size as u32));
+        #[cfg(fidget_verif)]
+        fidget_core::verif::emit(
+            "vox_root",
+            &[("x", tile.corner.x as i64), ("y", tile.corner.y as i64)],
+        );
         for k in (0..self.image_size[2].div_ceil(root_tile_size as u32)).rev() {
             let tile = Tile::new(Point3::new(
                 tile.corner.x,
@@ -264,6 +269,42 @@ impl<'a, F: Function> RenderWorker<'a, F> for Worker<'a, F> {
 }
 
 impl<F: Function> Worker<'_, F> {
+    /// Verification hook: the decision taken for one tile
+    ///
+    /// `act` is 0 (every pixel already filled), 1 (full), 2 (empty),
+    /// 3 (recurse) or 4 (per-voxel evaluation)
+    #[cfg(fidget_verif)]
+    fn verif_tile(
+        depth: usize,
+        tile: Tile<3>,
+        tile_size: usize,
+        act: i64,
+        i: Option<(Interval, bool)>,
+    ) {
+        let (lo, hi, tr) = match i {
+            Some((i, tr)) => (
+                i.lower().to_bits() as i32 as i64,
+                i.upper().to_bits() as i32 as i64,
+                tr as i64,
+            ),
+            None => (0, 0, 0),
+        };
+        fidget_core::verif::emit(
+            "vox_tile",
+            &[
+                ("d", depth as i64),
+                ("x", tile.corner[0] as i64),
+                ("y", tile.corner[1] as i64),
+                ("z", tile.corner[2] as i64),
+                ("s", tile_size as i64),
+                ("act", act),
+                ("lo", lo),
+                ("hi", hi),
+                ("tr", tr),
+            ],
+        );
+    }
+
     /// Returns the data offset of a row within a subtile
     pub(crate) fn tile_row_offset(&self, tile: Tile<3>, row: usize) -> usize {
         self.tile_sizes.pixel_offset(tile.add(Vector2::new(0, row)))
@@ -285,6 +326,8 @@ impl<F: Function> Worker<'_, F> {
             let i = self.tile_row_offset(tile, y);
             (0..tile_size).all(|x| self.out[i + x].depth >= fill_z)
         }) {
+            #[cfg(fidget_verif)]
+            Self::verif_tile(depth, tile, tile_size, 0, None);
             return false;
         }
 
@@ -305,6 +348,9 @@ impl<F: Function> Worker<'_, F> {
             )
             .unwrap();
 
+        #[cfg(fidget_verif)]
+        let traced = trace.is_some();
+
         // Return early if this tile is completely empty or full, returning
         // `data_interval` to scratch memory for reuse.
         if i.upper() < 0.0 {
@@ -314,10 +360,26 @@ impl<F: Function> Worker<'_, F> {
                     self.out[i + x].depth = self.out[i + x].depth.max(fill_z);
                 }
             }
+            #[cfg(fidget_verif)]
+            Self::verif_tile(depth, tile, tile_size, 1, Some((i, traced)));
             return false; // completely full, stop rendering
         } else if i.lower() > 0.0 {
+            #[cfg(fidget_verif)]
+            Self::verif_tile(depth, tile, tile_size, 2, Some((i, traced)));
             return true; // complete empty, keep going
         }
+        #[cfg(fidget_verif)]
+        Self::verif_tile(
+            depth,
+            tile,
+            tile_size,
+            if self.tile_sizes.get(depth + 1).is_some() {
+                3
+            } else {
+                4
+            },
+            Some((i, traced)),
+        );
 
         // Calculate a simplified tape based on the trace
         let sub_tape = if let Some(trace) = trace.as_ref() {
@@ -443,6 +505,15 @@ impl<F: Function> Worker<'_, F> {
             let z = (tile.corner[2] + k + 1).try_into().unwrap();
             assert!(self.out[o].depth < z);
             self.out[o].depth = z;
+            #[cfg(fidget_verif)]
+            fidget_core::verif::emit(
+                "vox_hit",
+                &[
+                    ("x", (tile.corner[0] + i) as i64),
+                    ("y", (tile.corner[1] + j) as i64),
+                    ("z", z as i64),
+                ],
+            );
 
             // Prepare to do gradient rendering of this point.
             // We step one voxel above the surface to reduce
